@@ -20,6 +20,7 @@ import (
 	"context"
 	"fmt"
 	"net/netip"
+	"os"
 	"sort"
 	"strings"
 	"testing"
@@ -74,6 +75,13 @@ type c17Case struct {
 	// CEAddPath: the CE sessions negotiate ADD-PATH (the server receives); a CE announces its prefix under path
 	// identifier 1+Origin and withdraws identifiers one by one: the route is exported while one identifier is left
 	CEAddPath bool `json:"ce_add_path,omitempty"`
+	// QAddPath: the RTC peer Q is sent up to two paths per VPN destination (ADD-PATH): what it is told and what is
+	// withdrawn from it when a membership goes covers every path, not only the best one
+	QAddPath bool `json:"q_add_path,omitempty"`
+	// QSpecific lets an ADD-PATH Q announce memberships for specific targets (never generated: known finding C17-K2,
+	// membership changes for a specific target only consider the best path of a destination whose paths were learned
+	// without ADD-PATH); failures get the suffix "-addpath-specific".  Without it Q uses the default membership only.
+	QSpecific bool `json:"q_specific,omitempty"`
 }
 
 const c17NRT = 4
@@ -115,6 +123,7 @@ func drawC17(t *rapid.T) c17Case {
 		c.Ops = append(c.Ops, op)
 	}
 	c.CEAddPath = rapid.IntRange(0, 2).Draw(t, "ce_add_path") == 0
+	c.QAddPath = rapid.IntRange(0, 2).Draw(t, "q_add_path") == 0
 	if rapid.IntRange(0, 1).Draw(t, "racing") == 0 {
 		c.Race = rapid.Uint32().Draw(t, "race")
 		c.Sched = uint64(rapid.IntRange(1, 1<<30).Draw(t, "sched"))
@@ -155,6 +164,9 @@ type c17View struct {
 	seen    int
 	entries map[string]string
 	errs    []string
+	// addpath: the session carries path identifiers towards this peer; a destination is held while one identifier is
+	paths map[string]map[uint32]string
+	opt   *bgp.MarshallingOption
 }
 
 func (v *c17View) feed(rx []simMsg) {
@@ -163,7 +175,13 @@ func (v *c17View) feed(rx []simMsg) {
 		if m.Type() != bgp.BGP_MSG_UPDATE {
 			continue
 		}
-		pm, err := bgp.ParseBGPMessage(m.Raw)
+		var pm *bgp.BGPMessage
+		var err error
+		if v.opt != nil {
+			pm, err = bgp.ParseBGPMessage(m.Raw, v.opt)
+		} else {
+			pm, err = bgp.ParseBGPMessage(m.Raw)
+		}
 		if err != nil {
 			v.errs = append(v.errs, fmt.Sprintf("message %d does not parse: %v", v.seen, err))
 			continue
@@ -187,7 +205,17 @@ func (v *c17View) feed(rx []simMsg) {
 				if mp.SAFI == bgp.SAFI_MPLS_VPN {
 					for _, nl := range mp.Value {
 						if l, ok := nl.NLRI.(*bgp.LabeledVPNIPAddrPrefix); ok {
-							delete(v.entries, l.RD.String()+" "+l.Prefix.String())
+							k := l.RD.String() + " " + l.Prefix.String()
+							if os.Getenv("VERIF_C17_TRACE") != "" {
+								fmt.Fprintf(os.Stderr, "view unreach %s id %d opt=%v paths=%v\n", k, nl.ID, v.opt != nil, v.paths[k])
+							}
+							if v.opt != nil {
+								delete(v.paths[k], nl.ID)
+								if len(v.paths[k]) > 0 {
+									continue
+								}
+							}
+							delete(v.entries, k)
 						}
 					}
 				}
@@ -195,7 +223,20 @@ func (v *c17View) feed(rx []simMsg) {
 				if mp.SAFI == bgp.SAFI_MPLS_VPN {
 					for _, nl := range mp.Value {
 						if l, ok := nl.NLRI.(*bgp.LabeledVPNIPAddrPrefix); ok {
-							v.entries[l.RD.String()+" "+l.Prefix.String()] = strings.Join(rts, ",")
+							k := l.RD.String() + " " + l.Prefix.String()
+							if v.opt != nil {
+								if v.paths == nil {
+									v.paths = map[string]map[uint32]string{}
+								}
+								if v.paths[k] == nil {
+									v.paths[k] = map[uint32]string{}
+								}
+								v.paths[k][nl.ID] = strings.Join(rts, ",")
+								if os.Getenv("VERIF_C17_TRACE") != "" {
+									fmt.Fprintf(os.Stderr, "view reach %s id %d paths=%v at msg %d\n", k, nl.ID, v.paths[k], v.seen)
+								}
+							}
+							v.entries[k] = strings.Join(rts, ",")
 						}
 					}
 				}
@@ -204,10 +245,30 @@ func (v *c17View) feed(rx []simMsg) {
 	}
 }
 
+// newQView: Q's view parses path identifiers when its session has ADD-PATH
+func (r *c17Run) newQView() *c17View {
+	v := &c17View{entries: map[string]string{}}
+	if r.c.QAddPath {
+		v.opt = &bgp.MarshallingOption{AddPath: map[bgp.Family]bgp.BGPAddPathMode{bgp.RF_IPv4_VPN: bgp.BGP_ADD_PATH_RECEIVE}}
+	}
+	return v
+}
+
+func (r *c17Run) qSpec() simOpenSpec {
+	spec := simOpenSpec{Families: []uint32{uint32(bgp.RF_IPv4_VPN), uint32(bgp.RF_RTC_UC)}, RR: true}
+	if r.c.QAddPath {
+		spec.AddPath = []uint32{uint32(bgp.RF_IPv4_VPN)<<8 | uint32(bgp.BGP_ADD_PATH_RECEIVE)}
+	}
+	return spec
+}
+
 func (r *c17Run) logf(f string, a ...any) { r.log = append(r.log, fmt.Sprintf(f, a...)) }
 func (r *c17Run) fail(sig, f string, a ...any) *verifkit.Failure {
 	if r.c.FreeRD {
 		sig += "-cross-rd"
+	}
+	if r.c.QAddPath && r.c.QSpecific {
+		sig += "-addpath-specific"
 	}
 	return verifkit.Failf(sig, "%s\n  history:\n   %s", fmt.Sprintf(f, a...), strings.Join(r.log, "\n   "))
 }
@@ -372,7 +433,7 @@ func (r *c17Run) verify(step string) *verifkit.Failure {
 		for k, w := range want {
 			g, ok := v.entries[k]
 			if !ok {
-				return r.fail(who+"-missing", "%s: %s was not told about %s (targets %s)", step, who, k, w)
+				return r.fail(who+"-missing", "%s: %s was not told about %s (targets %s); it holds %v (per identifier: %v)", step, who, k, w, v.entries, v.paths)
 			}
 			if g != w {
 				return r.fail(who+"-targets", "%s: %s holds %s with route targets [%s], must be [%s]", step, who, k, g, w)
@@ -538,6 +599,9 @@ func (r *c17Run) apply(op c17Op) *verifkit.Failure {
 		}
 		r.logf("CE %d withdraws %s id=%d", op.CE, c17Prefix(op.A), id)
 	case c17Member, c17Unmember:
+		if r.c.QAddPath && !r.c.QSpecific {
+			op.A = -1 // (see QSpecific)
+		}
 		origin := []uint32{65002, 65077}[op.Origin]
 		var nlri *bgp.RouteTargetMembershipNLRI
 		if op.A < 0 {
@@ -564,11 +628,11 @@ func (r *c17Run) apply(op c17Op) *verifkit.Failure {
 		r.sq.close()
 		r.n.settle()
 		r.n.advance(6 * time.Second) // idle hold time
-		ss, _, err := r.n.establish(r.q.def(), simOpenSpec{Families: []uint32{uint32(bgp.RF_IPv4_VPN), uint32(bgp.RF_RTC_UC)}, RR: true})
+		ss, _, err := r.n.establish(r.q.def(), r.qSpec())
 		if err != nil {
 			return r.fail("establish", "Q again: %v", err)
 		}
-		r.sq, r.vq = ss, &c17View{entries: map[string]string{}}
+		r.sq, r.vq = ss, r.newQView()
 		r.member = map[string]bool{}
 		r.logf("Q's session lost and re-established")
 	case c17AddVrf:
@@ -620,7 +684,12 @@ func runC17(t *testing.T) func(c c17Case, st *verifkit.Stats) *verifkit.Failure 
 			if err := n.s.AddPeer(ctx, &api.AddPeerRequest{Peer: c17VpnPeer(&r.p, false)}); err != nil {
 				return verifkit.Failf("addpeer", "P: %v", err)
 			}
-			if err := n.s.AddPeer(ctx, &api.AddPeerRequest{Peer: c17VpnPeer(&r.q, true)}); err != nil {
+			r.vq = r.newQView()
+			qp := c17VpnPeer(&r.q, true)
+			if c.QAddPath {
+				qp.AfiSafis[0].AddPaths = &api.AddPaths{Config: &api.AddPathsConfig{SendMax: 2}}
+			}
+			if err := n.s.AddPeer(ctx, &api.AddPeerRequest{Peer: qp}); err != nil {
 				return verifkit.Failf("addpeer", "Q: %v", err)
 			}
 			if err := n.s.AddPeer(ctx, &api.AddPeerRequest{Peer: c17VpnPeer(&r.p2, false)}); err != nil {
@@ -642,7 +711,7 @@ func runC17(t *testing.T) func(c c17Case, st *verifkit.Stats) *verifkit.Failure 
 			if r.sp2, _, err = n.establish(r.p2.def(), vpnSpec); err != nil {
 				return verifkit.Failf("establish", "P2: %v", err)
 			}
-			rtcSpec := simOpenSpec{Families: []uint32{uint32(bgp.RF_IPv4_VPN), uint32(bgp.RF_RTC_UC)}, RR: true}
+			rtcSpec := r.qSpec()
 			if r.sq, _, err = n.establish(r.q.def(), rtcSpec); err != nil {
 				return verifkit.Failf("establish", "Q: %v", err)
 			}
@@ -687,6 +756,9 @@ func runC17(t *testing.T) func(c c17Case, st *verifkit.Stats) *verifkit.Failure 
 			}
 			if c.CEAddPath {
 				st.Label("ce-add-path")
+			}
+			if c.QAddPath {
+				st.Label("q-add-path")
 			}
 			return n.stop()
 		})
